@@ -13,3 +13,9 @@ package tsservergen
 //@   ensures vars: err == nil ==> r.pathParams == spec.pathVars(method)
 //@   ensures query: err == nil ==> r.queryParams == annotations.GetQueryParams(method.Input)
 //@   ensures body: err == nil ==> (r.hasBody <==> spec.isBodyVerb(spec.verbOf(method)))
+
+// the handler argument's query-carried property is built with the runtime type its declaration has (C07)
+//@ func (g *Generator) generateQueryParamField(p tscommon.Printer, qp annotations.QueryParam)
+//@   modifies *
+//@   at-call p requires typed_like_the_declaration: qp.Field != nil && spec.scalarKindField(qp.Field) && spec.validKind(qp.Field.Desc.Kind()) ==> arg0 == spec.tsQueryExpr(qp.Field)
+//@   ensures one_line: count("p") == old(count("p")) + 1
